@@ -376,7 +376,7 @@ Proof.
   destruct (existsb (beqb x00) s) eqn:En.
   { rewrite pre_ok_rev, (steps_nul s En). rewrite !Bool.andb_false_r. reflexivity. }
   apply nonul_of_existsb in En.
-  unfold check_refname_format. destruct (bytes_eqb s [at_]).
+  unfold check_refname_format, standalone_at. destruct (bytes_eqb s [at_]).
   { cbn [negb]. rewrite Bool.andb_false_r. reflexivity. }
   rewrite (check_loop_V (length s) s [] 0%nat (S (length s)) (le_n _) ltac:(lia) En ltac:(now left)).
   unfold V. rewrite pre_ok_rev. cbn [negb]. rewrite Bool.andb_true_r.
